@@ -173,29 +173,32 @@ int main(int argc, char** argv) {
     return 0;
   }
   if (m == "poll_add_twice" || m == "poll_ops") {
-    // history over descriptors: the vector before the call is in_fds[0..in_n) (strictly increasing), then add(in_fd) (again) / remove(in_fd)
-    Poll p;
-    const auto& fds = A.arr("in_fds");
-    size_t n = A.u("in_n", fds.size());
-    if (n > fds.size()) n = fds.size();
-    vector<int> keys;
-    for (size_t i = 0; i < n; i++) { int fd = (int)(int32_t)fds[i]; if (!keys.empty() && fd <= keys.back()) { printf("initial set not strictly increasing\n"); return 2; } keys.push_back(fd); p.add(fd, POLLIN); }
-    int fd = (int)(int32_t)A.u("in_fd");
+    // the vector before the call: g_pn strictly increasing descriptors, g_lb of them below the key, the key itself present iff g_present
+    size_t n = A.u("g_pn"), lb = A.u("g_lb");
+    bool present = A.u("g_present") != 0;
     string op = A.extra.empty() ? "add" : A.extra[0];
-    // the abstract map
-    vector<int> want = keys;
-    bool present = false;
-    for (int k : want) present |= (k == fd);
-    if (op == "add") { p.add(fd, POLLOUT); if (!present) want.push_back(fd); }
-    else { p.remove(fd); vector<int> w2; for (int k : want) if (k != fd) w2.push_back(k); want = w2; }
-    // observe: remove every key of the abstract map once; the Poll must then be empty, and not before
+    if (m == "poll_add_twice") { n = 2; lb = 1; present = true; op = "add"; }
+    if (n > 4096 || lb > n || (present && lb >= n)) { printf("vector description not replayable\n"); return 2; }
+    const int key = 100000;
+    Poll p;
+    vector<int> keys;
+    for (size_t i = 0; i < n; i++) {
+      int fd = (i < lb) ? key - (int)(lb - i) : (present ? key + (int)(i - lb) : key + 1 + (int)(i - lb));
+      keys.push_back(fd);
+    }
+    // build in descending order so that every insertion is of a new, smallest key (never a re-add)
+    for (size_t i = n; i-- > 0;) p.add(keys[i], POLLIN);
+    vector<int> want = keys;                      // the abstract map's key set after the operation
+    if (op == "add") { p.add(key, POLLOUT); if (!present) want.push_back(key); }
+    else { p.remove(key); vector<int> w2; for (int k : want) if (k != key) w2.push_back(k); want = w2; }
+    // observe through the public interface: remove every key of the abstract map once; the Poll must then be empty, and not before
     for (size_t i = 0; i < want.size(); i++) {
       RCHECK(!p.empty(), "Poll::empty() is true while %zu descriptors are still registered", want.size() - i);
       p.remove(want[i]);
     }
-    printf("Poll: %zu initial descriptors, %s(%d) (%s before); after removing each of the %zu registered descriptors once: empty() = %d\n",
-        n, op.c_str(), fd, present ? "present" : "absent", want.size(), (int)p.empty());
-    RCHECK(p.empty(), "Poll is not empty after every registered descriptor was removed once (re-adding descriptor %d created a duplicate entry)", fd);
+    printf("Poll: %zu registered descriptors, %s(%d) (%s before); after removing each of the %zu registered descriptors once: empty() = %d\n",
+        n, op.c_str(), key, present ? "present" : "absent", want.size(), (int)p.empty());
+    RCHECK(p.empty(), "Poll is not empty after every registered descriptor was removed once (re-adding descriptor %d created a duplicate entry)", key);
     return 0;
   }
   if (m == "scoped_fd") {
